@@ -41,7 +41,12 @@ type C17Case struct {
 	Steps    []C17Step         `json:"steps"`
 }
 
-var c17Markers = []string{".git/", "go.mod", "package.json", "Dockerfile", "requirements.txt", "Cargo.toml", "docker-compose.yml"}
+var c17Markers = []string{".git/", "go.mod", "package.json", "Dockerfile", "requirements.txt", "Cargo.toml", "docker-compose.yml",
+	"k8s-deploy.yaml", "kustomization.yaml", "main.tf", "playbook.yml", "Makefile", "pom.xml", "Gemfile", "composer.json", "CMakeLists.txt",
+	"webpack.config.js", "vite.config.ts", "app.csproj", "build.gradle"}
+
+// words that project types boost (several of them are boosted by more than one type)
+var contextWords = []string{"container", "image", "build", "run", "compose", "test", "make", "compile", "bundle", "service", "deploy", "install", "package", "docker", "git", "commit", "push", "pull"}
 
 func genC17Query(rt *rapid.T) []string {
 	switch rapid.IntRange(0, 9).Draw(rt, "qshape") {
@@ -199,6 +204,25 @@ func genC17(rt *rapid.T) C17Case {
 	}
 	c.NoHome = rapid.IntRange(0, 9).Draw(rt, "nohome") == 0
 	c.Steps = rapid.SliceOfN(rapid.Custom(func(rt *rapid.T) C17Step { return genC17Step(rt, &c) }), 1, tierN(8, 20)).Draw(rt, "steps")
+	// some searches are repeated right away (same arguments, possibly another limit, later on the clock): the
+	// history must then describe the later of the two
+	reps := rapid.SliceOfN(rapid.IntRange(0, 3), len(c.Steps), len(c.Steps)).Draw(rt, "repeats")
+	var steps []C17Step
+	for i, st := range c.Steps {
+		steps = append(steps, st)
+		if reps[i] == 0 && len(st.Args) > 0 && st.Fault == "" {
+			again := st
+			again.ClockNS = int64(90 * time.Minute)
+			if i%2 == 0 {
+				again.Args = append(qa("--limit", "2"), st.Args...)
+				if a := st.Args.bytes(); len(a) > 0 && string(a[0]) == "search" {
+					again.Args = append(append(QArgs{st.Args[0]}, qa("--limit", "2")...), st.Args[1:]...)
+				}
+			}
+			steps = append(steps, again)
+		}
+	}
+	c.Steps = steps
 	return c
 }
 
@@ -262,19 +286,21 @@ func parsePrinted(stdout []byte, format string) ([]printedItem, string) {
 	}
 }
 
+// flagValue returns the value of the LAST occurrence of the flag (that is the one pflag keeps).
 func flagValue(args []string, name string) (string, bool) {
+	val, found := "", false
 	for i, a := range args {
 		if a == "--" {
 			break
 		}
 		if a == name && i+1 < len(args) {
-			return args[i+1], true
+			val, found = args[i+1], true
 		}
 		if strings.HasPrefix(a, name+"=") {
-			return strings.TrimPrefix(a, name+"="), true
+			val, found = strings.TrimPrefix(a, name+"="), true
 		}
 	}
-	return "", false
+	return val, found
 }
 
 func hasFlag(args []string, name string) bool {
@@ -291,8 +317,9 @@ func hasFlag(args []string, name string) bool {
 
 type histDoc struct {
 	Entries []struct {
-		Query        string `json:"query"`
-		ResultsCount int    `json:"results_count"`
+		Query        string    `json:"query"`
+		ResultsCount int       `json:"results_count"`
+		Timestamp    time.Time `json:"timestamp"`
 	} `json:"entries"`
 }
 
@@ -373,6 +400,7 @@ func runC17(c C17Case) *Outcome {
 		if hadHist {
 			_ = json.Unmarshal(hb, &before)
 		}
+		clockAtStart := w.clockNS
 		res, err := w.run(args, faults, nil, "s")
 		if err != nil {
 			o.Harness = err.Error()
@@ -521,6 +549,9 @@ func runC17(c C17Case) *Outcome {
 					return fail("history-entry", "step %d: the history is empty after a search", i)
 				}
 				last := after.Entries[len(after.Entries)-1]
+				if ts := last.Timestamp.UnixNano(); ts < clockAtStart || ts > w.clockNS {
+					return fail("history-entry-stale", "step %d: the newest history entry is dated %s, but this search ran at %s: the entry does not describe this search", i, last.Timestamp.UTC().Format(time.RFC3339), time.Unix(0, clockAtStart).UTC().Format(time.RFC3339))
+				}
 				if last.Query != q || last.ResultsCount != len(want) {
 					return fail("history-entry", "step %d: newest history entry is %q with %d results; the search was %q and printed %d", i, last.Query, last.ResultsCount, q, len(want))
 				}
